@@ -258,6 +258,6 @@ def wrap_module_patterns(patch, module):
             patch.setg(module, name, SYMRE)
         elif v is re.compile:
             patch.setg(module, name, SYMRE.compile)
-        elif v in (re.match, re.fullmatch, re.search):
+        elif any(v is f for f in (re.match, re.fullmatch, re.search)):
             patch.setg(module, name, getattr(SYMRE, v.__name__))
     return n
